@@ -21,7 +21,8 @@ pub static PROP: Prop = Prop {
            subsets (all subsets when <=4 variables), plus literal->fresh-variable hoisting; all forms are evaluated under the \
            same bindings and must give the same value (canonical, doubles bit-exact) or the same error variant. A seed grid \
            covers the constructs the statement names (?: conditions of every type, duplicate map keys, calls and macros over \
-           partly constant arguments, unbound variables). Clock: programs containing now()/timestamp() are compiled, then \
+           partly constant arguments, unbound variables, maps read by dot under keys spelled like built-ins: constant, bound and \
+           run-time-built map alike). Clock: programs containing now()/timestamp() are compiled, then \
            after a fixed 30 ms sleep executed; the result must not predate the execution. Non-trivial = the all-literal form \
            compiles to a single Push while the variable form does not, and the expression contains a call, container, ?:, \
            ||/&& or macro; distinct by canonical source + bindings.",
